@@ -65,6 +65,7 @@ structure Strm where
   pPath : Bool := false
   pAuthority : Bool := false
   regularSeen : Bool := false
+  fieldSeen : Bool := false      -- a field of the header block in progress has been decoded
   path : Bytes := []
   contentLength : Int := 0
   hasCL : Bool := false
